@@ -655,6 +655,9 @@ def run_check(prop, obs, tier, seed, level_text="", assumptions=(), outside=(),
     obs = [o for o in obs if tier == "thorough" or o.tier == "quick"]
     if only:
         obs = [o for o in obs if re.search(only, o.name)]
+    if not obs:
+        log("INCONCLUSIVE no obligation selected for %s (tier=%s only=%r)" % (prop, tier, only))
+        return 2
     work = Work(prop)
     results = [None] * len(obs)
     # memory-aware scheduling: simple semaphore on GB
@@ -782,6 +785,8 @@ def run_check(prop, obs, tier, seed, level_text="", assumptions=(), outside=(),
     os.makedirs(os.path.join(VERIF, "evidence"), exist_ok=True)
     # partial (--only) debugging runs never overwrite the evidence of a full run
     evname = prop + ".json" if not only else prop + ".partial.json"
+    if os.path.realpath(REPO) != "/repo":
+        evname = prop + ".altrepo.partial.json"   # runs against a scratch worktree never touch the evidence
     with open(os.path.join(VERIF, "evidence", evname), "w") as f:
         json.dump(ev, f, indent=1, sort_keys=True)
     for r in known_hits:
